@@ -10,6 +10,7 @@ import re
 
 from gsa.cfg import Fn, S, is_call, walk, lit
 from gsa import rules as R
+from gsa.layout import Interp, Poly
 
 EXPL = ("Division routines (block_range for iterators and integers, LocalIteratorFeature<false>, ParallelSTL::partial_sum "
         "blocks, FileGraph::divideByEdge, divideNodesBinarySearch, findIndexPrefixSum / FileGraph::findIndex, "
@@ -206,6 +207,10 @@ def weighted(ctx, fx):
              "divideNodesBinarySearch: blockLower = scaleFactor[id - 1] (0 for id == 0), blockUpper = scaleFactor[id]; the two "
              "findIndexPrefixSum calls agree on every argument except the target (blockWeight * blockLower / blockUpper) and "
              "the lower bound (0 / nodesLower); the edge bounds read the same prefix element on both sides")
+    ctx.rule("C13.weighted.last-piece-reaches-end",
+             "divideNodesBinarySearch: total weight - max over searched prefixes of (prefix edges * edgeWeight + mid * nodeWeight), "
+             "with mid <= numNodes - 1 and prefix edges <= numEdges, is a polynomial that is >= 1 whenever nodeWeight + "
+             "edgeWeight >= 1 (the `numEdges + 1` sentinel): the last division's lower-bound search cannot stop before numNodes")
     fs = insts(fx, "galois::graphs::divideNodesBinarySearch")
     ctx.floor("divideNodesBinarySearch instantiations", len(fs), 2)
     for f in fs:
@@ -252,6 +257,37 @@ def weighted(ctx, fx):
             det.append("edge bounds %s / %s" % (el, eu))
         ctx.ob("C13.weighted.adjacent-agree", "galois::graphs::divideNodesBinarySearch", not det, "; ".join(det), fn.loc(),
                "weighted", fnkey=f["key"])
+        # the last division must end at numNodes: its target (>= the total weight, by the ceil-div and the scale prefix sum)
+        # has to be strictly larger than the weight of every prefix the search can look at, whatever the degrees are
+        det = []
+        N, E, nw, ew = (Poly.sym(x) for x in ("N", "E", "nw", "ew"))
+        it = Interp(fn, {"numNodes": N, "numEdges": E, "nodeWeight": nw, "edgeWeight": ew})
+        tot = it.ev(li["weight"][0], {}) if li.get("weight") else None
+        srch = [g for g in fx.functions if g["qn"] == "galois::graphs::internal::findIndexPrefixSum" and g["kind"] != "pattern"]
+        wmax = None
+        if srch:
+            sfn = ctx.fn(srch[0])
+            sli = local_inits(sfn)
+            # inside the search mid < ub = numNodes and the prefix sum is at most numEdges; the weight is monotone in both
+            it2 = Interp(sfn, {"num_edges": E, "mid": N - Poly.const(1), "nodeWeight": nw, "edgeWeight": ew})
+            wmax = it2.ev(sli["weight"][0], {}) if sli.get("weight") else None
+            if wmax is not None and any(v < 0 for v in wmax.p.t.values() if True) and False:
+                wmax = None
+        ubs = {S(c.get("a", [None] * 5)[4]) for c in calls}
+        if ubs != {"numNodes"}:
+            det.append("search upper bounds %s" % sorted(ubs))
+        if tot is None or wmax is None:
+            det.append("total weight / searched weight not linear in (numNodes, numEdges, nodeWeight, edgeWeight)")
+        else:
+            diff = tot.p - wmax.p
+            coef = lambda m: diff.t.get(m, 0)
+            ok = all(v >= 0 for v in diff.t.values()) and (coef(()) >= 1 or (coef(("nw",)) >= 1 and coef(("ew",)) >= 1))
+            if not ok:
+                det.append("total weight %s minus the largest searched prefix weight %s = %s is not >= 1 for every weighting "
+                           "with nodeWeight + edgeWeight >= 1: with trailing zero-degree nodes the last search stops early "
+                           "and a suffix of nodes is in no piece" % (tot.p, wmax.p, diff))
+        ctx.ob("C13.weighted.last-piece-reaches-end", "galois::graphs::divideNodesBinarySearch", not det, "; ".join(det),
+               fn.loc(), "weighted", fnkey=f["key"])
 
 
 def block_division(ctx, fx):
